@@ -15,7 +15,9 @@ import (
 	"github.com/named-data/ndnd/fw/face"
 	fwfw "github.com/named-data/ndnd/fw/fw"
 	enc "github.com/named-data/ndnd/std/encoding"
+	"github.com/named-data/ndnd/std/ndn"
 	spec "github.com/named-data/ndnd/std/ndn/spec_2022"
+	sec "github.com/named-data/ndnd/std/security"
 
 	"verif/internal/fwenv"
 	"verif/internal/gen"
@@ -189,8 +191,52 @@ func c04Targets(c *h.Ctx, r *rand.Rand) []*c04Target {
 		pseeds = append(pseeds, tlvwalk.TLV(0x64, f))
 	}
 	sp := spec.Spec{}
+	// canary: "a frame that fails to decode changes no state" - after every eighth call of a packet
+	// decoder (whatever that call was given and however it ended) a fixed, valid, signed Data packet is
+	// decoded through the same entry point and must come out exactly as it always does: same name, same
+	// content, same signed portion (computed independently from the bytes)
+	cnm, _ := enc.NameFromStr("/c04/canary/data")
+	cdata, cerr := sp.MakeData(cnm, &ndn.DataConfig{}, enc.Wire{[]byte("canary content")}, sec.NewSha256Signer())
+	var canary, canarySigned []byte
+	if cerr == nil {
+		canary = cdata.Wire.Join()
+		if lay, e := pkt.Analyse(canary); e == nil {
+			canarySigned = lay.Signed
+		}
+	}
+	calls := 0
+	checkCanary := func(how string) {
+		calls++
+		if calls%8 != 0 || canarySigned == nil {
+			return
+		}
+		var name enc.Name
+		var cov, content []byte
+		var err error
+		switch how {
+		case "ReadPacket":
+			var p *spec.Packet
+			var ctx *spec.PacketParsingContext
+			p, ctx, err = spec.ReadPacket(enc.NewBufferReader(append([]byte{}, canary...)))
+			if err == nil && p.Data != nil {
+				name, cov, content = p.Data.Name(), ctx.Data_context.SigCovered().Join(), p.Data.Content().Join()
+			}
+		default:
+			var d ndn.Data
+			var w enc.Wire
+			d, w, err = sp.ReadData(enc.NewBufferReader(append([]byte{}, canary...)))
+			if err == nil {
+				name, cov, content = d.Name(), w.Join(), d.Content().Join()
+			}
+		}
+		c.Count("canary_decodes", 1)
+		if err != nil || !name.Equal(cnm) || !bytes.Equal(cov, canarySigned) || string(content) != "canary content" {
+			panic(fmt.Sprintf("state leaked between decodes: after an earlier %s call the fixed valid Data packet decodes differently (err=%v, name=%s, signed portion %d bytes, expected %d)", how, err, name, len(cov), len(canarySigned)))
+		}
+	}
 	ts = append(ts,
 		&c04Target{name: "ReadPacket", seeds: pseeds, call: func(rd enc.ParseReader) {
+			defer checkCanary("ReadPacket")
 			p, ctx, err := spec.ReadPacket(rd)
 			if err == nil && p != nil {
 				if p.Data != nil {
@@ -205,6 +251,7 @@ func c04Targets(c *h.Ctx, r *rand.Rand) []*c04Target {
 			}
 		}},
 		&c04Target{name: "ReadData", seeds: pseeds, call: func(rd enc.ParseReader) {
+			defer checkCanary("ReadData")
 			d, cov, err := sp.ReadData(rd)
 			if err == nil {
 				_ = d.Name().String()
